@@ -76,6 +76,18 @@ def make_history(rng, compress):
             reqs.append(("steps", {"numberSteps": 2, "settings": {MG: {SC: {"constants": {"cap": rng.choice([15.0, 60.0])}}}} if rng.random() < 0.5 else {}}))
         else:
             reqs.append(("results", None))
+    if not compress:
+        from vlib.srv import EQS
+        r = rng.random()
+        if r < 0.3 and n >= 4:
+            # a second session begun on the same instance (its state is shorter than what the file holds by then)
+            body = {"scenario_managers": [MG], "scenarios": [rng.choice([SC, "alt"])], "equations": list(EQS)}
+            if rng.random() < 0.5:
+                body["settings"] = {MG: {body["scenarios"][0]: {"constants": {"rate": 0.7}}}}
+            reqs.insert(rng.randint(2, n - 2), ("rebegin", body))
+        elif r < 0.5:
+            # the rest of the session streamed (stream-steps runs to the stop time), followed by 1-2 more requests
+            reqs.insert(rng.randint(max(1, n - 3), n - 1), ("stream", {"settings": rng.choice([{}, {MG: {SC: {"constants": {"rate": 0.4}}}}])}))
     return dict(start=start, dt=dt, reqs=reqs, scen=SC, begin=begin)
 
 
@@ -85,6 +97,10 @@ def send(c, iid, req):
         r = c.post("/%s/run-step" % iid, json=body) if body is not None else c.post("/%s/run-step" % iid)
     elif kind == "steps":
         r = c.post("/%s/run-steps" % iid, json=body)
+    elif kind == "stream":
+        r = c.post("/%s/stream-steps" % iid, json=body)
+    elif kind == "rebegin":
+        r = c.post("/%s/begin-session" % iid, json=body)
     else:
         r = c.get("/%s/session-results" % iid)
     txt = r.get_data(as_text=True)
@@ -150,8 +166,26 @@ def missing_equation(resp):
 def influence(h, k_global, order, i):
     """does a setting given before the crash exist for instance i, and are steps requested after it?"""
     before = any(h["reqs"][j][1] and isinstance(h["reqs"][j][1], dict) and h["reqs"][j][1].get("settings") for (ii, j) in order[:k_global] if ii == i)
-    after = any(h["reqs"][j][0] in ("step", "steps") for (ii, j) in order[k_global:] if ii == i)
+    after = any(h["reqs"][j][0] in ("step", "steps", "stream") for (ii, j) in order[k_global:] if ii == i)
     return before and after
+
+
+def strip_earlier_sessions(hists):
+    """control run of the classifier: the sessions that precede a re-begun session change no scenario setting"""
+    for h in hists:
+        rb = [n for n, r in enumerate(h["reqs"]) if r[0] == "rebegin"]
+        if rb:
+            h["begin"] = None
+            for n in range(rb[-1]):
+                kind, body = h["reqs"][n]
+                if isinstance(body, dict) and body.get("settings"):
+                    h["reqs"][n] = (kind, dict(body, settings={}))
+
+
+def after_rebegin_with_settings(h, j):
+    rb = [jj for jj, r in enumerate(h["reqs"]) if r[0] == "rebegin"]
+    had = bool(rb) and (bool(h.get("begin")) or any(isinstance(r[1], dict) and r[1].get("settings") for r in h["reqs"][:rb[-1]]))
+    return bool(rb) and j > rb[-1] and had
 
 
 def run_crash(case, counters):
@@ -160,6 +194,8 @@ def run_crash(case, counters):
     hists = [make_history(rng, case["compress"]) for _ in range(case["ninst"])]
     for h in hists[1:]:
         h["start"], h["dt"] = hists[0]["start"], hists[0]["dt"]     # one factory per server
+    if case.get("strip_earlier_sessions"):
+        strip_earlier_sessions(hists)
     order = interleave(hists)
     nts = []
     tmpU = tempfile.mkdtemp(prefix="c20u_", dir=".")
@@ -207,6 +243,7 @@ def run_crash(case, counters):
                 b = json.dumps(canon(want[1]), sort_keys=True).replace("<x>", "<ID>")
                 if got[0] != want[0] or a != b.replace(idsU[i], "<ID>"):
                     return dict(kind="differs-after-restart", crash_point=k, request_index=n, instance=i, request=hists[i]["reqs"][j], got=got, uninterrupted=want,
+                                after_rebegin=after_rebegin_with_settings(hists[i], j),
                                 earlier_requests=[hists[i]["reqs"][jj] for (ii, jj) in order[:k] if ii == i], run=dict(start=hists[0]["start"], dt=hists[0]["dt"]),
                                 scenario=hists[i].get("scen"), begin_settings=hists[i].get("begin")), nts
             for i in range(len(hists)):
@@ -330,6 +367,8 @@ def run_killed_child(case, counters):
     rng = random.Random(case["seed"])
     hist = make_history(rng, False)
     hist["reqs"] = [("step", {"settings": {}})] + hist["reqs"]
+    if case.get("strip_earlier_sessions"):
+        strip_earlier_sessions([hist])
     tmpU = tempfile.mkdtemp(prefix="c20ku_", dir=".")
     U = open_server(tmpU, hist, False)
     try:
@@ -360,7 +399,7 @@ def run_killed_child(case, counters):
             b = json.dumps(canon(base[n][1]), sort_keys=True)
             if got[0] != base[n][0] or a != b:
                 return dict(kind="differs-after-restart", via="killed child process", crash_point=k, request_index=n, request=hist["reqs"][n], got=got, uninterrupted=base[n],
-                            earlier_requests=hist["reqs"][:k])
+                            earlier_requests=hist["reqs"][:k], after_rebegin=after_rebegin_with_settings(hist, n))
         return None
     finally:
         if B is not None:
@@ -438,6 +477,24 @@ def run_case(case):
     except Exception as e:
         import traceback
         w = dict(kind="exception:" + type(e).__name__, error=traceback.format_exc()[-700:])
+    if w is not None and w.get("kind") == "harness":
+        return dict(verdict="inconclusive", nt=nts, counters=counters, witness=dict(first=w, case=case))
     if w is not None:
-        return dict(verdict="violated", nt=nts, counters=counters, mech=classify(w), witness=dict(first=w, case=case))
+        mech = classify(w)
+        if case["kind"] in ("crash", "killed-child") and w["kind"] == "differs-after-restart" and w.get("after_rebegin"):
+            # known finding candidate: the difference appears in a re-begun session whose predecessor changed scenario settings.
+            # Control: the same history and crash points with the predecessor's settings removed must hold; otherwise it is something else.
+            try:
+                if case["kind"] == "crash":
+                    cw, _ = run_crash(dict(case, strip_earlier_sessions=True), {})
+                else:
+                    cw = run_killed_child(dict(case, strip_earlier_sessions=True), {})
+            except Exception as e:
+                cw = dict(kind="control-exception", error=str(e)[:200])
+            counters["leak_controls_run"] = 1
+            if cw is None:
+                mech = "previous-session-settings-not-restored"
+            else:
+                w["control_also_fails"] = cw.get("kind")
+        return dict(verdict="violated", nt=nts, counters=counters, mech=mech, witness=dict(first=w, case=case))
     return dict(verdict="held", nt=nts, counters=counters, sample=dict(case=case))
